@@ -138,3 +138,6 @@ theorem sched_bounded_init (c : Cfg) (s : St) (ts : List Tid) (h : runSched c in
   rw [pot_init] at this; omega
 
 end SeqIo.Par
+
+/-! Axioms used (expected: only `propext`, `Classical.choice`, `Quot.sound`). -/
+#print axioms SeqIo.Par.sched_bounded
